@@ -19,7 +19,7 @@ from vmon.ref import structcmp
 ID = 'C13'
 RULE = ('one case = (named crystal: sc fcc bcc diamond hcp square tria honey lieb kagome omega rumpled dtria b2 l12 tet rect, '
         'and two crystals given in a non-primitive cell; i.e. 2-D and 3-D, multi-site, multi-Wyckoff, two species) x (cache empty | populated by 2 Lij calls before saving) x '
-        'Nthermo 1 (thorough: also 2 on the cheap crystals) with fully random thermodynamic inputs; plus cases on random '
+        'Nthermo 1 (2 on three cheap crystals; thorough: 2 on all cheap crystals) with fully random thermodynamic inputs; plus cases on random '
         'crystals (all lattice systems) for StarSet / VectorStarSet / GFCrystalcalc / Taylor / YAML round trips; '
         'non-trivial = every case (>= 1 round trip with >= 2 subsequent inputs); distinct = (crystal, Nthermo, history)')
 ASSUMPTIONS = ['bitwise equality is demanded for every result (the copy holds the same numbers and runs the same code)',
@@ -50,7 +50,9 @@ def cases(tier, seed):
     # crystals handed over in a non-primitive cell (the constructor reduces them and rescales its threshold)
     for k, name in enumerate(('bcc-conventional', 'square-centred')):
         out.append({'seed': seed, 'idx': len(out), 'hashseed': (k + seed) % 5, 'kind': 'vm', 'name': name, 'Nthermo': 1, 'populate': k})
-    nrand = 10 if tier == 'quick' else 120
+    for k, name in enumerate(('honey', 'lieb', 'tet')):
+        out.append({'seed': seed, 'idx': len(out), 'hashseed': (k + 1 + seed) % 5, 'kind': 'vm', 'name': name, 'Nthermo': 2, 'populate': (k + seed) % 2})
+    nrand = 10 if tier == 'quick' else 150
     for i in range(nrand):
         out.append({'seed': seed, 'idx': len(out), 'hashseed': i % 5, 'kind': 'rand'})
     if tier != 'quick':
@@ -351,6 +353,7 @@ def check_taylor(mon, rng, dim, ctx):
     same_order = [(n, l) for n, l, c in t.coefflist] == [(int(n), int(l)) for n, l, c in t2.coefflist]
     mon.count('taylor_order_preserved' if same_order else 'taylor_order_changed')
     for _ in range(3):
+      with mon.guard('C13:Taylor:eval'):
         u = rng.normal(size=dim)
         report(mon, 'C13:Taylor:eval-terms', bits(t(u), {(int(n), int(l)): v for (n, l), v in t2(u).items()}), ctx)
         fnu = {p: (lambda x, p=p: np.exp(-x * x) * x ** p[0] if p[0] >= 0 else np.exp(-x * x) / (1 + x) ** (-p[0])) for p in c1}
